@@ -116,7 +116,12 @@ class Slice:
             return cls.empty
         open_start = json_data.get("openStart", 0) or 0
         open_end = json_data.get("openEnd", 0) or 0
-        if not isinstance(open_start, int) or not isinstance(open_end, int):
+        if (
+            not isinstance(open_start, int)
+            or not isinstance(open_end, int)
+            or open_start < 0
+            or open_end < 0
+        ):
             msg = "invalid input for Slice.from_json"
             raise ValueError(msg)
         return cls(
